@@ -536,6 +536,8 @@ public:
     auto prev_nodes = m_iterator->m_cfg.prev_nodes(head);
     AbstractValue pre = std::move(make_bottom());
     wto_nesting_t cycle_nesting = get_nesting(head);
+    // nesting of the nodes that lie directly inside this cycle
+    wto_nesting_t inner_nesting = cycle_nesting + head;
 
     {
       // If the analysis starts inside this cycle then the predecessors
@@ -543,7 +545,12 @@ public:
       crab::CrabStats::count("Fixpo.join_predecessors");
       crab::ScopedCrabStats __st__("Fixpo.join_predecessors");
       for (basic_block_label_t prev : prev_nodes) {
-        if (!(get_nesting(prev) > cycle_nesting)) {
+        // Only the predecessors inside this cycle (back edges) are left
+        // out. A predecessor nested in another cycle at the same level
+        // also has a nesting longer than cycle_nesting but it is an
+        // entry into this cycle.
+        wto_nesting_t prev_nesting = get_nesting(prev);
+        if (!(prev_nesting == inner_nesting || prev_nesting > inner_nesting)) {
           pre |= m_iterator->get_post(prev);
         }
       }
